@@ -208,7 +208,7 @@ def random_definition(rng: random.Random, used_api: set[str], kind: str | None =
     else:
         flex_from, flex_s = versions[-1] + 1, f"{versions[-1] + 1}+"  # declared but never reached
     base = _name(rng, used_api, (2, 3))
-    api_key = rng.choice((7, 18, rng.randint(0, 200), rng.randint(0, 32767)))
+    api_key = rng.choice((7, 18, rng.randint(4, 200), rng.randint(4, 32767)))  # never 3: every scratch tree holds the pinned Metadata API
     out = []
     types = {"pair": ("request", "response"), "request": ("request",)}.get(kind, (kind,))
     for t in types:
@@ -350,7 +350,7 @@ def mutate(rng: random.Random, defn: dict, nmut: int = 2) -> dict:
             d["fields"].pop(rng.randrange(len(d["fields"])))
             constructs.append("mut:remove-field")
         elif m == "api-key" and "apiKey" in d:
-            d["apiKey"] = rng.choice((7, 18, rng.randint(0, 500)))
+            d["apiKey"] = rng.choice((7, 18, rng.randint(4, 500)))
             constructs.append(f"mut:apiKey:{d['apiKey'] if d['apiKey'] in (7, 18) else 'other'}")
         elif m == "rename" and allf:
             f, siblings, _ = rng.choice(allf)
